@@ -113,8 +113,34 @@ def stateful_attrs(P, cname):
                         state.add(tt.attr)
             if isinstance(x, ast.Call) and isinstance(x.func, ast.Name) and x.func.id == "next" and x.args and is_self_attr(x.args[0]):
                 state.add(x.args[0].attr)
-            if isinstance(x, ast.Call) and isinstance(x.func, ast.Attribute) and x.func.attr in ("pop", "append", "remove") and is_self_attr(x.func.value):
+            if isinstance(x, ast.Call) and isinstance(x.func, ast.Attribute) and x.func.attr in ("pop", "append", "remove", "insert", "extend", "clear", "update", "setdefault", "sort", "reverse") \
+                    and is_self_attr(x.func.value):
                 state.add(x.func.value.attr)
+            # an element of a container attribute is written: self.table[k] = v / self.table[k] += v
+            for t in tgts:
+                if isinstance(t, ast.Subscript) and is_self_attr(t.value) and m not in ("__init__", "initialise", "error_check_at_initialise"):
+                    state.add(t.value.attr)
+        # a parameter is modified in place (p[i] = v, p[i] += v, p.append(..)) and a call inside the class passes one of the object's own containers for it
+        params = [a.arg for a in fn.args.args][1:]
+        mutated = set()
+        for x in ast.walk(fn):
+            tg = x.targets if isinstance(x, ast.Assign) else [x.target] if isinstance(x, ast.AugAssign) else []
+            for t in tg:
+                if isinstance(t, ast.Subscript) and isinstance(t.value, ast.Name) and t.value.id in params:
+                    mutated.add(t.value.id)
+            if isinstance(x, ast.Call) and isinstance(x.func, ast.Attribute) and x.func.attr in ("pop", "append", "remove", "insert", "extend", "clear", "sort", "reverse") \
+                    and isinstance(x.func.value, ast.Name) and x.func.value.id in params:
+                mutated.add(x.func.value.id)
+        if mutated:
+            for m2 in view.methods():
+                for c_ in ast.walk(view.resolve(m2)[1]):
+                    if isinstance(c_, ast.Call) and isinstance(c_.func, ast.Attribute) and unparse(c_.func.value) == "self" and c_.func.attr == m:
+                        for i_, a_ in enumerate(c_.args):
+                            if i_ < len(params) and params[i_] in mutated and is_self_attr(a_):
+                                state.add(a_.attr)
+                        for k_ in c_.keywords:
+                            if k_.arg in mutated and is_self_attr(k_.value):
+                                state.add(k_.value.attr)
     state -= {"simulation", "node"}     # back-references set by Simulation when it adopts the object
     return state
 
@@ -222,6 +248,14 @@ def isolation(ctx, P):
             if copied or reinit or only_test:
                 continue
             bad = sorted(st)
+            if not copied and calls_init:
+                # the objects are re-initialised here: one finding per class whose initialise() leaves run-time state behind (so that a class that newly
+                # acquires such state is not hidden behind one already known)
+                for c_ in [c for c in bad if not reinitialised(P, c, st[c])]:
+                    ctx.violation(ob, "R10.isolation", q, "%s:%s" % (field, c_), "stateful-object-by-reference",
+                                  "%s is used by reference from the Network and %s.initialise() does not reset %s: a second Simulation built from the same Network continues "
+                                  "where the first one stopped instead of starting fresh" % (field, c_, "/".join(sorted(st[c_]))), loc(x))
+                continue
             ctx.violation(ob, "R10.isolation", q, "%s" % field, "stateful-object-by-reference",
                           "%s is used by reference from the Network; it may hold an object with run-time state (%s), so a second Simulation built from the same Network "
                           "continues where the first one stopped instead of starting fresh" % (field, ", ".join("%s.%s" % (c, "/".join(sorted(st[c]))) for c in bad[:4])), loc(x))
